@@ -8,6 +8,7 @@ From Supp Require Import Model.PyCore Model.Reach Model.Sem Model.SemX
 From Supp Require Import Model.ReachX Proofs.ReachXBridge.
 From Supp Require Import Model.Nested Proofs.NestedProofs Model.NestedRun Proofs.NestedRunProofs.
 From Supp Require Import Model.NestedCls Proofs.NestedClsProofs.
+From Supp Require Import Model.SemXS Model.NestedRunS Proofs.NestedRunSProofs.
 
 (* Every run of every command (no restriction: return, break, continue, exceptions raised
    anywhere and caught by any enclosing try, finally clauses), from any state whose bound names
@@ -169,3 +170,20 @@ Example C01_class_level_example :
   existsb (alt_eqb (Some 2)) (seen_k [(KFun, ex_outer); (KCls, ex_cls)] (KFun, ex_meth) 12) = true /\
   existsb (alt_eqb (Some 3)) (seen_k [(KFun, ex_outer); (KCls, ex_cls)] (KFun, ex_meth) 12) = false.
 Proof. repeat split; vm_compute; reflexivity. Qed.
+
+(* ---- beyond visibility: the definition actually read, across scopes (Model/NestedRunS.v) --------
+   (the inter-scope counterpart of C02X_sound; C02 itself speaks about one scope only)
+   On chains whose bodies are in the fragment [okx] of the C02 extension, when every function is called
+   after its caller's body ran to its end (the "define everything, then call main()" shape): every read
+   event of every level - the binding site obtained for a local OR a free name, or the failure - is
+   among the alternatives supp lists for that read (go-to-definition is complete for closure and
+   global reads made after the enclosing body finished; a failing read is flagged possibly undefined). *)
+Theorem C01_chain_reads_sound : forall fuel bodies ds,
+  forallb okx bodies = true -> forallb level_sound (run_chain_s fuel [] bodies renv0 ds) = true.
+Proof. exact module_chain_sound. Qed.
+Print Assumptions C01_chain_reads_sound.
+
+Example C01_chain_reads_sound_example :
+  forallb okx [ex_outer; ex_inner] = true /\
+  map snd (run_chain_s 20 [] [ex_outer; ex_inner] renv0 [0%nat]) = [[]; [(10, Some 1); (11, Some 3)]].
+Proof. split; vm_compute; reflexivity. Qed.
